@@ -8,6 +8,7 @@ type Binding struct {
 	mutable   bool
 	strict    bool // immutable binding that throws on assignment even in sloppy code (const); false: silently ignored in sloppy (function expression name)
 	deletable bool
+	constDecl bool // TDZ placeholder of a const declaration (for-in/of head)
 }
 
 type envKind uint8
@@ -29,14 +30,14 @@ type Env struct {
 	withEnv bool
 
 	// function environment
-	fnObj      *Object
-	thisVal    Value
-	thisInit   bool
-	hasThis    bool // false for arrows
-	home       *Object
-	newTarget  *Object
-	argsObj    *Object
-	varNames   map[string]bool // global: names declared by var/function (CanDeclareGlobalVar bookkeeping)
+	fnObj     *Object
+	thisVal   Value
+	thisInit  bool
+	hasThis   bool // false for arrows
+	home      *Object
+	newTarget *Object
+	argsObj   *Object
+	varNames  map[string]bool // global: names declared by var/function (CanDeclareGlobalVar bookkeeping)
 }
 
 func newDeclEnv(outer *Env) *Env {
@@ -147,6 +148,9 @@ func (it *Interp) setMutableBinding(e *Env, name string, v Value, strict bool) {
 	}
 	b := e.vars[name]
 	if !b.init {
+		if !b.mutable || b.constDecl {
+			it.trap(Known.ConstTDZAssign, "C02-const-tdz-assign")
+		}
 		it.throwError("ReferenceError")
 	}
 	if b.mutable {
